@@ -37,6 +37,16 @@ type pairState struct {
 	name string
 	cfg  poolCfg
 	ops  func(w *poolWorld) []pairOp
+	// placeProp: the property the placement differential of this state speaks for ("C02" if empty)
+	placeProp string
+}
+
+// openPick: a pick that stays open, judged by the placement differential also on a superseded picker
+// (round-robin BIND slots are handed out balancer-wide, whatever picker the call came through)
+func openPick(name, cmd, key, gen string) pairOp {
+	o := pickOp(name, cmd, key, gen, false, "")
+	o.pure = true
+	return o
 }
 
 func pickOp(name, cmd, key, gen string, deadline bool, complete string) pairOp {
@@ -184,6 +194,17 @@ func pairStates() []pairState {
 					pickOp("unknown-key", "bound", "kX", "L", false, ""),
 					pickOp("bindP", "bind", "", "L", false, ""),
 					pickOp("bound-k1", "bound", "k1", "L", false, ""),
+				}
+			}},
+		// round-robin, both channels READY, a superseded picker still in use: BIND slots are handed out
+		// by the balancer, so overlapping BINDs (through whichever picker) must land on distinct channels
+		{name: "rr-ready", placeProp: "C09", cfg: poolCfg{Name: "pairs rr-ready pool=2", Min: 2, Max: 2, WM: 100, RR: true, Setup: readyPool(2)},
+			ops: func(w *poolWorld) []pairOp {
+				return []pairOp{
+					openPick("bindL1", "bind", "", "L"),
+					openPick("bindL2", "bind", "", "L"),
+					openPick("bindO1", "bind", "", "O"),
+					openPick("bindO2", "bind", "", "O"),
 				}
 			}},
 		// round-robin BIND while the pool can still grow
@@ -351,6 +372,9 @@ func (w *poolWorld) invariants(openCalls int, resolved string, blocked []string)
 				add("C09", "BIND "+b+" still waiting although every channel is READY")
 			}
 		}
+	}
+	for p := range bad {
+		sort.Strings(bad[p]) // map iteration order must not leak into verdict signatures
 	}
 	return bad, strings.Join(keys, ",")
 }
@@ -568,9 +592,13 @@ func runPairs(c *vsched.RunCtx, race bool) {
 						Msg: fmt.Sprintf("bound keys after the overlap: {%s}; after the sequential orders: %s", r.keys, strings.Join(seqKeyList, " "))})
 				}
 				if allPure && !seqCounts[r.counts] {
-					out.Violations = append(out.Violations, vsched.Violation{Property: "C02", Rule: "C02.PLACE",
-						Sig: fmt.Sprintf("C02.PLACE [pairs %s] %s: overlapping picks on one picker leave stream counts no sequential order gives", st.name, pairName),
-						Msg: fmt.Sprintf("per-channel stream counts after the overlap: %s; after the sequential orders: %s (a pick was placed on a channel that was not least loaded)", r.counts, strings.Join(seqCountList, " "))})
+					pp, what := "C02", "a pick was placed on a channel that was not least loaded"
+					if st.placeProp != "" {
+						pp, what = st.placeProp, "two BIND calls were handed the same round-robin slot"
+					}
+					out.Violations = append(out.Violations, vsched.Violation{Property: pp, Rule: pp + ".PLACE",
+						Sig: fmt.Sprintf("%s.PLACE [pairs %s] %s: overlapping picks leave stream counts no sequential order gives", pp, st.name, pairName),
+						Msg: fmt.Sprintf("per-channel stream counts after the overlap: %s; after the sequential orders: %s (%s)", r.counts, strings.Join(seqCountList, " "), what)})
 				}
 				all = append(all, "keys="+r.keys, "counts="+r.counts)
 				out.Outcome = strings.Join(all, " # ")
@@ -578,8 +606,14 @@ func runPairs(c *vsched.RunCtx, race bool) {
 				return out
 			}
 			if c.Replay != nil {
-				if c.Replay.Harness == "pairs" && c.Replay.Config == cfgName {
-					out, s := vsched.RunOnce(vsched.ExploreOpts{Race: race}, c.Replay.Choices, true, body)
+				if (c.Replay.Harness == "pairs" || c.Replay.Harness == "pairs+racy") && c.Replay.Config == cfgName {
+					ro := vsched.ExploreOpts{Race: true}
+					if c.Replay.Harness == "pairs+racy" {
+						// recompute the racy access sites of this tuple, then replay with them as scheduling points
+						p1 := vsched.Explore(vsched.ExploreOpts{Name: "pairs", Config: cfgName, PreemptBound: pre, DevBound: 1, Race: true}, body)
+						ro.YieldSites = p1.RaceSites
+					}
+					out, s := vsched.RunOnce(ro, c.Replay.Choices, true, body)
 					rr := &vsched.ReplayResult{Trace: s.Events}
 					for _, v := range out.Violations {
 						if v.Sig == c.Replay.Sig {
@@ -595,8 +629,16 @@ func runPairs(c *vsched.RunCtx, race bool) {
 				}
 				continue
 			}
-			res := vsched.Explore(vsched.ExploreOpts{Name: "pairs", Config: cfgName, PreemptBound: pre, DevBound: 1, Race: race, Deadline: c.Deadline}, body)
+			// Race detection is always on (it only sees something in a build with access hooks): in the
+			// race check the races are the verdict; in a property check they select the accesses that
+			// become scheduling points of a second exploration, because a program with a data race has
+			// behaviours that interleavings at synchronisation operations alone never show.
+			res := vsched.Explore(vsched.ExploreOpts{Name: "pairs", Config: cfgName, PreemptBound: pre, DevBound: 1, Race: true, Deadline: c.Deadline}, body)
 			c.Add(res)
+			if !race && len(res.RaceSites) > 0 {
+				res2 := vsched.Explore(vsched.ExploreOpts{Name: "pairs+racy", Config: cfgName, PreemptBound: 2, DevBound: 1, Race: true, YieldSites: res.RaceSites, Deadline: c.Deadline}, body)
+				c.Add(res2)
+			}
 		}
 	}
 }
